@@ -52,6 +52,9 @@ def oracle(c, d, kind, im):
         extra = [w for w in found if w not in want]
         return ('words of the document that do not appear exactly once: %r; '
                 'unexpected: %r' % (miss[:5], extra[:5]))
+    bad = glued(c, d, allt, acc)
+    if bad:
+        return bad
     if not c.multi:
         flows = {}
         for w, _ in d.words:
@@ -69,7 +72,37 @@ def oracle(c, d, kind, im):
     return None
 
 
+def glued(c, d, allt, acc):
+    """a word that stands free in the source (white space on a side) is not
+    glued to generated or neighbouring text on that side"""
+    src = c.latex
+    for w, o in d.words:
+        if w in acc or allt.count(w) != 1:
+            continue
+        k = allt.find(w)
+        # (blanks directly behind a control word do not count, as in TeX)
+        before_free = o > 0 and src[o - 1].isspace() and not re.search(
+            r'\\[A-Za-z@]+[ \t]*\n?[ \t]*$', src[max(0, o - 40):o])
+        e = o + len(w)
+        after_free = e < len(src) and src[e].isspace()
+        if before_free and k > 0 and allt[k - 1].isalnum():
+            return ('word %r is glued to %r in front of it (white space in the source)'
+                    % (w, allt[max(0, k - 8):k]))
+        if after_free and k + len(w) < len(allt) and allt[k + len(w)].isalnum():
+            return ('word %r is glued to %r behind it (white space in the source)'
+                    % (w, allt[k + len(w):k + len(w) + 8]))
+    return None
+
+
 DIRECTED = [
+    # escaped specials in titles, options and arguments stay literal text
+    ('\\begin{proof}[Why \\$5 and \\$7 suffice] Body text. \\end{proof} After.', {}),
+    ('\\newtheorem{thm}{Theorem}\\begin{thm}[Name \\{a, b\\} \\& c] T \\end{thm} U', {}),
+    ('\\section[short \\$ t]{Long \\$5 title \\{x\\}} Text', {}),
+    ('\\begin{figure}\\caption[\\$]{Cap \\$ text \\_ x}\\end{figure} T', {}),
+    ('\\begin{itemize}\\item[\\$5] body \\item[\\{] b\\end{itemize}', {}),
+    ('A\\footnote{costs \\$5 and \\$7} B \\textbf{\\$ \\{ \\}} C', {}),
+    ('\\begin{proof}[\\$] P \\end{proof} \\begin{proof}[a\\footnote{n}] Q \\end{proof} R', {}),
     ('A\\footnote{first} \\LTinput{defs.tex} B\\footnote{second} C', {}),
     ('\\usepackage{glossaries}\\LTinput{main.glsdefs}\n\\Gls{ex} and \\gls{ex}, '
      '\\Glspl{pp} and \\glspl{pp}', {}),
